@@ -948,6 +948,14 @@ fn e2e_self_exit_and_restart(ctx: &Ctx, agg: &mut Agg) -> Value {
         if second["inode_of_path_now"].as_u64() != first_ino {
             agg.add("C04:e2e:not-taken-over-in-place".into(), 0, format!("the successor of a daemon that shut itself down publishes into another file (inode {} instead of {}): clients attached to the first daemon's segment never see it", second["inode_of_path_now"], v["first_synchronized_publication"]["inode"]), doc.clone());
         }
+        // taken over in place: the generation goes on from where the predecessor left it (lifetimes of seconds: no wrap)
+        let left_gen = left["generation"].as_u64().unwrap_or(0);
+        let first_new = second["generation"].as_u64().unwrap_or(u64::MAX);
+        if first_new <= left_gen {
+            agg.add("C04:e2e:valid-segment-reinitialised".into(), 0, format!("the predecessor left a valid segment with generation {left_gen}; its successor's first new publication carries generation {first_new}: the segment was re-initialised (the generation started again) instead of taken over in place"), doc.clone());
+        } else if let Some(back) = second["generations_seen_in_the_file"].as_array().and_then(|a| a.iter().filter_map(|g| g.as_u64()).find(|g| *g < left_gen)) {
+            agg.add("C04:e2e:valid-segment-reinitialised".into(), 0, format!("the predecessor left a valid segment with generation {left_gen}; while its successor started, generation {back} was visible in the file ({}): the segment was re-initialised instead of taken over in place (clients see the generation go back, through 0)", second["generations_seen_in_the_file"]), doc.clone());
+        }
         if second["attached_client_caught_up"] != true {
             agg.add("C04:e2e:attached-client-stuck".into(), 0, format!("a client that attached during the first daemon's lifetime and stayed attached never sees the successor's publications (it sees {})", second["attached_client_sees"]), doc.clone());
         }
